@@ -1,5 +1,6 @@
 import Zrnt.Beacon.Impl.Epoch
 import Proofs.Lemmas.C02Registry
+import Proofs.Lemmas.C02Altair
 /-!
 # C02 — slot, epoch and fork-upgrade processing equals the consensus spec
 
@@ -296,5 +297,64 @@ theorem effectiveBalance_snapshot_eq (cfg : Config) (cur fin limit : Nat) (vals 
   have := congrArg List.length h1
   simp only [List.length_map] at this
   omega
+
+/-! ## Altair … deneb: attester data, flag deltas, inactivity, rewards -/
+
+/-- `flagDeltas_altair_eq`: `altair.ComputeFlagDeltas` — stake loop over the previous epoch's active indices with the
+flag as a bit mask, membership test `!slashed && participation&flag != 0` on the eligible indices — equals
+`get_flag_index_deltas` (membership in `get_unslashed_participating_indices`, which also asks for activity in the
+previous epoch: for an eligible, unslashed validator that is implied), for each of the three flags. -/
+theorem flagDeltas_altair_eq (cfg : Config) (vals : List Validator) (participation : List Nat) (prev total : Nat)
+    (leak : Bool) (k : Nat) (hk : k < 3) :
+    Impl.computeFlagDeltas cfg vals participation (active_indices_of vals prev) (eligible_indices_of vals prev)
+        total (integer_squareroot total) (Impl.flagMask k) (PARTICIPATION_FLAG_WEIGHTS.getD k 0) leak =
+      get_flag_index_deltas_pure cfg vals participation prev total leak k :=
+  Lemmas.flagDeltas_altair cfg vals participation prev total leak k hk
+
+/-- non-vacuity: the three participation flags -/
+example : (0 : Nat) < 3 ∧ (1 : Nat) < 3 ∧ (2 : Nat) < 3 := by decide
+
+/-- `inactivity_eq` (penalties): `altair.ComputeInactivityPenaltyDeltas` = `get_inactivity_penalty_deltas`,
+with the fork's quotient (`INACTIVITY_PENALTY_QUOTIENT_ALTAIR` / `_BELLATRIX`) as a parameter of both. -/
+theorem inactivityPenalty_eq (cfg : Config) (vals : List Validator) (participation scores : List Nat) (prev quotient : Nat) :
+    Impl.computeInactivityPenaltyDeltas cfg vals participation scores (eligible_indices_of vals prev) quotient =
+      get_inactivity_penalty_deltas_pure cfg vals participation scores prev quotient :=
+  Lemmas.inactivityPenaltyDeltas_altair cfg vals participation scores prev quotient
+
+/-- `inactivity_eq` (scores): `altair.ProcessInactivityUpdates` (decrement by one with a `> 0` test, recovery with a
+`<` test, write back only when changed) = `process_inactivity_updates` (`min` formulation, unconditional write). -/
+theorem inactivity_eq (cfg : Config) (vals : List Validator) (participation scores : List Nat) (prev : Nat) (leak : Bool) :
+    Impl.processInactivityUpdates cfg vals participation (eligible_indices_of vals prev) leak scores =
+      process_inactivity_updates_pure cfg vals participation scores prev leak :=
+  Lemmas.inactivityUpdates_altair cfg vals participation scores prev leak
+
+/-- `rewards_altair_eq`: `altair.ProcessEpochRewardsAndPenalties` — the three flag deltas and the inactivity deltas,
+applied by four `common.ApplyDeltas` passes (each a map over the balances, clipped at zero) — equals the spec's
+`process_rewards_and_penalties` (for each delta pair, the `increase_balance`/`decrease_balance` loop). -/
+theorem rewards_altair_eq (cfg : Config) (vals : List Validator) (participation scores balances : List Nat)
+    (prev cur quotient : Nat) (leak : Bool) (hlen : balances.length = vals.length) :
+    Impl.processEpochRewardsAndPenaltiesAltair cfg vals participation scores (active_indices_of vals prev)
+        (eligible_indices_of vals prev) (total_active_balance_of cfg vals cur)
+        (integer_squareroot (total_active_balance_of cfg vals cur)) quotient leak balances =
+      process_rewards_and_penalties_altair_pure cfg vals participation scores balances prev cur quotient leak :=
+  Lemmas.rewards_altair cfg vals participation scores balances prev cur quotient leak hlen
+
+/-- non-vacuity -/
+example : ∃ (vals : List Validator) (balances : List Nat), vals ≠ [] ∧ balances.length = vals.length :=
+  ⟨[default], [7], by simp, rfl⟩
+
+/-- `currentTargetStake_eq` (lead #14, repaired by /repo commit 2e74fa1): the unslashed target stakes that
+`altair.ComputeEpochAttesterData` hands to the justification step — the previous epoch's summed over the previous
+epoch's active indices, the CURRENT epoch's over the CURRENT epoch's active indices — are the balances of
+`get_unslashed_participating_indices(state, TIMELY_TARGET_FLAG_INDEX, previous/current epoch)`; and its eligible
+indices are `get_eligible_validator_indices`. -/
+theorem currentTargetStake_eq (cfg : Config) (vals : List Validator) (prevPart currPart : List Nat) (prev cur : Nat) :
+    ((Impl.computeEpochAttesterDataAltair cfg vals prevPart currPart prev (active_indices_of vals prev)
+        (active_indices_of vals cur)).prevTargetStake,
+     (Impl.computeEpochAttesterDataAltair cfg vals prevPart currPart prev (active_indices_of vals prev)
+        (active_indices_of vals cur)).currTargetStake) = target_balances_altair_pure cfg vals prevPart currPart prev cur ∧
+    (Impl.computeEpochAttesterDataAltair cfg vals prevPart currPart prev (active_indices_of vals prev)
+        (active_indices_of vals cur)).eligibleIndices = eligible_indices_of vals prev :=
+  Lemmas.targetStakes_altair cfg vals prevPart currPart prev cur
 
 end Zrnt.Proofs.C02
